@@ -1131,6 +1131,31 @@ impl<'a, 'b, 'ast> Visit<'ast> for Collector<'a, 'b> {
                     self.edits.push((sp.start, sp.end, text));
                 } } }
             }
+            Expr::MethodCall(c) if rw.for_iter && c.method == "map" && c.args.len() == 1 && matches!(&c.args[0], Expr::Closure(cl) if cl.inputs.len() == 1)
+                && matches!(&*c.receiver, Expr::MethodCall(it) if it.method == "into_iter" && it.args.is_empty() && matches!(&*it.receiver, Expr::Path(p) if p.path.get_ident().map(|i| rw.iter_model.contains(&format!("{i}!"))).unwrap_or(false))) => {
+                // R43 (option for_iter=1, iter_model=X!): `X.into_iter().map(|P| B)` on a Vec held by value (consumed by a collecting callee) ->
+                //   the Vec it yields: `{ let mut out = Vec::new(); for P in X { out.push(B) } out }`  (items in order; the closure is applied once per item)
+                if let (Expr::MethodCall(it), Expr::Closure(cl)) = (&*c.receiver, &c.args[0]) {
+                    let idx = rw.loop_idx.get();
+                    rw.loop_idx.set(idx + 1);
+                    let a = e.span().byte_range().start;
+                    let b = cl.body.span().byte_range().start;
+                    rw.loop_headers.borrow_mut().push(rw.src[a..b].split_whitespace().collect::<Vec<_>>().join(" "));
+                    let newv = match &rw.vec_elem { Some(t) => format!("Vec::<{t}>::new()"), None => "Vec::new()".to_string() };
+                    let pat = rw.src[cl.inputs[0].span().byte_range()].trim().to_string();
+                    let x = rw.render_expr(&it.receiver);
+                    let body = rw.render_expr(&cl.body);
+                    let inv = rw.section(&format!("loop {idx}")).map(|t| mark(t)).unwrap_or_default();
+                    let braw = rw.section(&format!("loop {idx} begin-raw")).map(|t| format!("{}\n", mark(t))).unwrap_or_default();
+                    let begin = rw.section(&format!("loop {idx} begin")).map(|t| format!("proof {{ //@p\n{}\n}} //@p\n", mark(t))).unwrap_or_default();
+                    let end = rw.section(&format!("loop {idx} end")).map(|t| format!("proof {{ //@p\n{}\n}} //@p\n", mark(t))).unwrap_or_default();
+                    let after = rw.section(&format!("loop {idx} after")).map(|t| format!("proof {{ //@p\n{}\n}} //@p\n", mark(t))).unwrap_or_default();
+                    let text = format!("({{ let mut __mout{idx} = {newv};\nmatch (viter_own_({x})).into_iter() {{ mut __it{idx} => {{\nloop\n{inv}\n{{ match __it{idx}.next() {{ Some({pat}) => {{\n{braw}{begin}let __y{idx} = {body}; __mout{idx}.push(__y{idx});\n{end} }} None => {{ break; }} }} }}\n }} }}\n{after} __mout{idx} }})");
+                    rw.count("R43");
+                    let sp = e.span().byte_range();
+                    self.edits.push((sp.start, sp.end, text));
+                }
+            }
             Expr::MethodCall(c) if rw.for_iter && c.method == "flat_map" && c.args.len() == 1
                 && matches!(&*c.receiver, Expr::Call(z) if z.args.len() == 2 && matches!(&*z.func, Expr::Path(p) if p.path.is_ident("zip")) && matches!((&z.args[0], &z.args[1]), (Expr::Array(a), Expr::Array(b)) if a.elems.len() == b.elems.len()))
                 && matches!(&c.args[0], Expr::Closure(cl) if cl.inputs.len() == 1 && matches!(&*cl.body, Expr::MethodCall(mp) if mp.method == "map" && mp.args.len() == 1 && matches!(&mp.args[0], Expr::Closure(c2) if c2.inputs.len() == 1) && matches!(&*mp.receiver, Expr::MethodCall(it) if it.method == "iter" && it.args.is_empty()))) => {
